@@ -41,7 +41,9 @@ class ErrorExtraction(object):
             if klass in self.registry:
                 extractor = self.registry[klass]
                 try:
-                    return extractor(exception)
+                    # Copy: the caller adds fields to the result, and the
+                    # extractor's own dictionary must not be modified.
+                    return dict(extractor(exception))
                 except:
                     from ._traceback import write_traceback
 
